@@ -92,6 +92,8 @@ type Engine struct {
 	declared   map[string]bool
 	sortDecls  []string
 	tidTypes   map[int]types.Type
+	calleePost   int
+	calleeGhosts map[string]Value
 	ifaceTypes map[string]types.Type
 	sortDone   map[string]string
 	sortByType map[string]string
@@ -485,6 +487,11 @@ func (e *Engine) heapGet(st *State, name, sort string) string {
 	}
 	e.sortDone["heap:"+name] = sort
 	ep := fmt.Sprint(st.epoch)
+	if strings.HasPrefix(name, "W_") {
+		// the abstract writer's ghost heaps survive unknown calls (see havocAll): one that has not been named on this
+		// path yet still has its entry value
+		ep = "0"
+	}
 	if m, ok := st.heaps["!epoch:"+name]; ok {
 		ep = m
 	}
